@@ -416,6 +416,100 @@ func sizeClass(n int) string {
 	}
 }
 
+// ---------------------------------------------------------------- malformed packet streams (C10)
+
+func (e *env) garbageCases() {
+	n := e.r.Scale(40, 600)
+	for i := 0; i < n; i++ {
+		e.garbageCase(Case{Kind: "garbage", Seed: e.seed, Sub: uint64(i)})
+	}
+}
+
+// garbageCase: after a genuine handshake the client is fed bytes that are not an honest packet
+// stream: random bytes, an honest packet with a damaged length field, a truncated packet, a
+// packet with an unknown flag or a ticket/seed packet of the wrong size.
+// S: Read never panics and never delivers a byte that was not sent as payload before the damage.
+// C: the reader model predicts delivered bytes, error and residue.
+func (e *env) garbageCase(c Case) {
+	rng := vlib.NewRng(e.seed*7907 + c.Sub*13 + 1)
+	id := "garbage"
+	e.call("sess.new %s %s", id, vlib.Hex(e.dhSeed))
+	head := rng.Bytes(rng.Range(1, 30))
+	stream := e.srvSend(id, spkt{flagData, head, int(rng.Intn(10))})
+	variant := vlib.Pick(rng, []string{"random", "random-long", "unknown-flag", "short-ticket", "long-seed", "truncated", "replayed-packet", "swapped-packets", "zero-bytes"})
+	switch variant {
+	case "random":
+		stream = append(stream, rng.Bytes(rng.Range(1, 60))...)
+	case "random-long":
+		stream = append(stream, rng.Bytes(rng.Range(1500, 4000))...)
+	case "unknown-flag":
+		stream = append(stream, e.srvSend(id, spkt{vlib.Pick(rng, []int{0, 3, 5, 8, 255}), rng.Bytes(10), 0})...)
+	case "short-ticket":
+		stream = append(stream, e.srvSend(id, spkt{flagTkt, rng.Bytes(vlib.Pick(rng, []int{0, 143, 145})), 0})...)
+	case "long-seed":
+		stream = append(stream, e.srvSend(id, spkt{flagSeed, rng.Bytes(vlib.Pick(rng, []int{0, 24, 31, 33})), 0})...)
+	case "truncated":
+		p := e.srvSend(id, spkt{flagData, rng.Bytes(100), 5})
+		stream = append(stream, p[:rng.Range(1, len(p)-1)]...)
+	case "replayed-packet":
+		stream = append(stream, stream...)
+		stream = append(stream, rng.Bytes(1500)...)
+	case "swapped-packets":
+		a := e.srvSend(id, spkt{flagData, rng.Bytes(40), 0})
+		b := e.srvSend(id, spkt{flagData, rng.Bytes(40), 0})
+		stream = append(append(append(stream, b...), a...), rng.Bytes(1500)...)
+	case "zero-bytes":
+		stream = append(stream, make([]byte, rng.Range(21, 3000))...)
+	}
+	var sizes []int
+	if rng.Intn(2) == 0 {
+		for left := len(stream); left > 0; {
+			n := rng.Range(1, 500)
+			sizes = append(sizes, n)
+			left -= n
+		}
+	}
+	chunks := cutReads(chunkAt(stream, sizes), mss)
+	s, _, _, err := e.connect(e.cf, "10.3.0.1:443", 0)
+	if err != nil {
+		e.r.Violate("handshake-fails", "impl-oracle", "plain UniformDH handshake failed: "+err.Error(), c)
+		return
+	}
+	defer s.close()
+	for _, ch := range chunks {
+		s.sc.Feed(ch)
+	}
+	got, rerr, blocked, pan := s.read(len(stream), 4096)
+	c.Target = variant
+	e.r.Case(fmt.Sprintf("garbage/%s/%d/%d", variant, len(stream), len(chunks)), true)
+	e.r.Count("kind", "garbage")
+	e.r.Count("garbage_variant", variant)
+	outcome := "error"
+	if blocked {
+		outcome = "blocked"
+	}
+	e.r.Count("garbage_outcome", outcome)
+	if pan != nil {
+		e.r.Violate("reader-panic", "impl-oracle", fmt.Sprintf("Read panicked on a %s stream of %d bytes: %v", variant, len(stream), pan), c)
+		return
+	}
+	if !bytes.Equal(got, head) {
+		e.r.Violate("altered-data-delivered", "impl-oracle",
+			fmt.Sprintf("%s stream: Read delivered %d bytes %x, only %x was sent as payload (err=%v)", variant, len(got), trunc(string(got), 40), head, rerr), c)
+		return
+	}
+	if rx, dec, ok := scramblesuit.VerifBufferSizes(s.conn); ok && rerr == nil && (rx >= maxPktPay+mss || dec > 0) {
+		e.r.Violate("buffer-over-bound", "impl-oracle", fmt.Sprintf("receive buffer %d bytes, decoded buffer %d bytes", rx, dec), c)
+	}
+	rep := e.call("cli.rxall %s %s %s", vlib.Hex(e.dhSeed), vlib.Hex(stream), intList(lens(chunks)))
+	e.r.Validated(1)
+	mErr := rep[4] == "1"
+	if rep[0] != "ok" || !bytes.Equal(vlib.UnHex(rep[1]), got) || mErr != (rerr != nil) {
+		e.r.Violate("model-impl-disagree-garbage", "correspondence",
+			fmt.Sprintf("%s stream of %d bytes: implementation delivered %d bytes, err=%v, blocked=%v; model %v", variant, len(stream), len(got), rerr, blocked, rep[2:]), c)
+	}
+}
+
 // ---------------------------------------------------------------- single-bit packet modifications
 
 type flipPre struct {
